@@ -874,6 +874,24 @@ func (env *SpecEnv) call(x *ast.CallExpr) tv {
 			return tv{T: buildForall([]string{bn}, []string{so}, guard, bt.T), Ty: boolT}
 		}
 		return tv{T: Term{fmt.Sprintf("(%s ((%s %s)) %s)", q, bn, so, inner.S), sBool}, Ty: boolT}
+	case "fpeq": // fpeq(a, b): IEEE equality of two float64 values given as bit patterns (or float-typed terms)
+		a := env.needTerm(env.eval(x.Args[0]))
+		b := env.needTerm(env.eval(x.Args[1]))
+		return tv{T: fpEq(a.T, b.T), Ty: boolT}
+	case "ufun": // ufun(name, ResultType, args...): an uninterpreted function of the arguments with a Go-typed result
+		id, ok := x.Args[0].(*ast.Ident)
+		if !ok || len(x.Args) < 3 {
+			sfail("ufun(name, Type, args...)")
+		}
+		rt := env.resolveType(x.Args[1])
+		if rt == nil {
+			sfail("ufun: unknown result type")
+		}
+		var args []Term
+		for _, a := range x.Args[2:] {
+			args = append(args, env.needTerm(env.eval(a)).T)
+		}
+		return tv{T: ex.uninterp(env.st, "uf_"+id.Name, ex.u.sortOf(rt), args...), Ty: rt}
 	case "eqsym": // eqsym(id, a, b): the structural-equality relation named id (uninterpreted; unfolded by its definitional axiom)
 		id, ok := x.Args[0].(*ast.Ident)
 		if !ok || len(x.Args) != 3 {
